@@ -40,14 +40,14 @@ def payloads(kind, props=False):
         out += [('stray-symbol', s) for s in SYMS[:3]]
         out += [('lone-quote', "'"), ('lone-quote', '"')]
         out += [('lone-bracket', b) for b in '{}[]']
-        out += [('unterminated-comment', '/* never closed')]
+        out += [('unterminated-comment', x) for x in ('/* never closed', '/*/', '/*/ never closed', '/**', '/* *', '/* * /', '/*')]
         if ctx in ('top', 'end'):
             out += [('stray-word', 'zzzstray'), ('stray-word', 'zzz stray words')]
     elif kind.startswith('eol:'):
         out += [('stray-symbol', s) for s in SYMS[:2]]
         out += [('lone-quote', "'"), ('lone-quote', '"')]
         out += [('lone-bracket', b) for b in '{}[]']
-        out += [('unterminated-comment', '/* never closed')]
+        out += [('unterminated-comment', x) for x in ('/* never closed', '/*/', '/*/ x', '/**', '/* * /')]
     elif kind.startswith('gap:'):
         out += [('stray-symbol', s) for s in SYMS[:2]]
         if kind == 'gap:col:before-settings':
@@ -55,7 +55,7 @@ def payloads(kind, props=False):
     elif kind.startswith('fault:tok:'):
         out += [('bracket-dropped', 'drop'), ('bracket-doubled', 'double')]
     elif kind.startswith('fault:settings:'):
-        out += [('unknown-setting', 'unknown'), ('empty-settings', 'empty'), ('double-comma', 'dcomma'), ('trailing-comma', 'tcomma'),
+        out += [('unknown-setting', 'unknown'), ('empty-settings', 'empty'), ('double-comma', 'dcomma'), ('trailing-comma', 'tcomma'), ('second-settings-list', 'twolists'),
                 ('unknown-setting', 'unknown-kv-word'), ('unknown-setting', 'unknown-kv-number')]
         if not props:      # `key: 'string'` is a property when arbitrary properties are enabled
             out += [('unknown-setting', 'unknown-kv-string')]
@@ -174,6 +174,25 @@ HANDMADE = [      # (fault class, document): a closing quote that is escaped doe
     ('number-with-two-dots', 'Table t {\n  a int [default: 1..2]\n}\n'),
     ('bare-project-value', 'Project p {\n  version: 2\n}\n'),
     ('bare-project-value', 'Project p {\n  public: true\n}\n'),
+    ('second-settings-list', 'Table a {\n  x int\n}\nTable b {\n  y int\n}\nRef: a.x > b.y [delete: cascade] [update: restrict]\n'),
+    ('second-settings-list', 'Table a {\n  x int\n}\nTable b {\n  y int\n}\nRef r {\n  a.x > b.y [delete: cascade] [update: restrict]\n}\n'),
+    ('second-settings-list', 'Table a {\n  x int [pk] [unique]\n}\n'),
+    ('second-settings-list', 'Table a [headercolor: #fff] [note: \'n\'] {\n  x int\n}\n'),
+    ('second-settings-list', 'Table a {\n  x int\n  indexes {\n    x [unique] [name: \'n\']\n  }\n}\n'),
+    ('second-settings-list', 'Enum e {\n  a [note: \'n\'] [note: \'m\']\n}\n'),
+] + [
+    # a bare word of a particular length and nothing else on the line: still a column without a type
+    ('column-without-type', 'Table t {\n  ' + 'a' * n + '\n}\n') for n in (1, 63, 64, 127, 128, 129, 130, 255, 256, 257, 300, 1000, 5000)
+] + [
+    ('column-without-type', 'Table t {\n  id int\n  ' + 'b' * n + '\n  c int\n}\n') for n in (129, 256, 1025)
+] + [
+    ('missing-body', 'Table ' + 't' * n + '\n') for n in (129, 256, 300)
+] + [
+    ('unterminated-comment', 'Table t {\n  a int\n}\n' + c) for c in ('/*/', '/*/\n', '/*/ x', '/**', '/* *', '/*/ */ /*')
+] + [
+    ('unterminated-comment', c + '\nTable t {\n  a int\n}\n') for c in ('/*/', '/**', '/*/ x')
+] + [
+    ('unterminated-comment', 'Table t {\n  a int ' + c + '\n  b int\n}\n') for c in ('/*/', '/**')
 ]
 
 
@@ -237,7 +256,7 @@ def conclusive(agg, tier):
     c = agg['counters']
     need = ['stray-symbol', 'lone-quote', 'lone-bracket', 'stray-word', 'unterminated-comment', 'bracket-dropped',
             'bracket-doubled', 'unknown-setting', 'empty-settings', 'double-comma', 'trailing-comma', 'unknown-index-type',
-            'unknown-ref-operator', 'unknown-action', 'malformed-colour', 'column-without-type', 'unterminated-string']
+            'unknown-ref-operator', 'unknown-action', 'malformed-colour', 'column-without-type', 'unterminated-string', 'second-settings-list']
     out = [f'fault kind {f} was never planted' for f in need if not c.get('obs.fault.' + f)]
     for p in ('own', 'eol', 'gap', 'tok', 'settings', 'lit'):
         if not c.get('obs.position.' + p):
